@@ -15,7 +15,7 @@ from __future__ import annotations
 import random
 
 from ..core import Eq, Fail, Note
-from .. import kapi, pat, trigring
+from .. import kapi, pat, trigring, coexist
 from ..kapi import get_alg, mv, coeffs, mv_eq_claims, eq_claims, kmap
 
 PROP = 'C02'
@@ -132,6 +132,8 @@ def cases(tier, seed):
         P = pat.EXH(2) if d == 2 else pat.RND(3, 40, rng)
         for i in range(60 if tier == 'quick' else 400):
             add(cfg, rng.choice(P), rng.choice(P), routes[i % 3])
+    # algebras that coexist in one process and share blade NAMES but not the binary numbering / metric (kv/coexist.py)
+    out += coexist.cases(tier, seed, 302, n_quick=40, n_thorough=300)
     # coefficients of a commutative ring other than numbers: sympy expressions in cos t, sin t (one product a*b each)
     out += trigring.cases(tier, seed, binary_only=True, n_quick=30, n_thorough=300)
     return out
@@ -140,6 +142,8 @@ def cases(tier, seed):
 def run_case(desc, V):
     if desc['kind'] == 'trig-ring':
         return trigring.run(desc, V)
+    if desc['kind'] == 'coexist':
+        return coexist.run(desc, V, binary=('gp', 'op'))
     # with a wrapper the numeric path calls through the shared name space: keep such cases
     # self-contained (history effects are C09's subject)
     alg = get_alg(desc['cfg'], fresh=bool(desc['cfg'].get('wrapper')))
